@@ -66,6 +66,7 @@ type interpreter struct {
 	allocs  int64                  // concrete part of allocation accounting (bytes)
 	now     int64                  // modelled clock, ns
 	depth   int
+	initDirect *ssa.Function
 }
 
 func rtErr(msg string) value {
@@ -134,6 +135,7 @@ func (i *interpreter) ensureInit(pkg *ssa.Package) {
 					panic(r)
 				}
 			}()
+			i.initDirect = init
 			call(i, i.sched.cur.top, token.NoPos, init, nil)
 		}()
 	}
@@ -776,6 +778,21 @@ func call(i *interpreter, caller *frame, callpos token.Pos, fn value, args []val
 }
 
 func callSSA(i *interpreter, caller *frame, callpos token.Pos, fn *ssa.Function, args []value, env []value) value {
+	if fn.Synthetic == "package initializer" {
+		if i.initDirect != fn {
+			// a dependency's initializer called from another initializer: packages are
+			// initialised lazily on first access to one of their globals instead.
+			return nil
+		}
+		i.initDirect = nil
+	}
+	// Function bodies are built per package on demand; never look at Blocks of a package
+	// that another worker may still be building.
+	if fn.Pkg != nil {
+		i.eng.buildPkg(fn.Pkg)
+	} else if o := fn.Origin(); o != nil && o.Pkg != nil {
+		i.eng.buildPkg(o.Pkg)
+	}
 	fr := &frame{i: i, caller: caller, fn: fn, callpos: callpos}
 	if caller != nil {
 		fr.g = caller.g
@@ -868,12 +885,12 @@ func runFrame(fr *frame) {
 			if strings.Contains(msg, "integer divide by zero") {
 				r = targetPanic{rtErr(msg)}
 			} else {
-				buf := make([]byte, 4096)
+				buf := make([]byte, 1500)
 				buf = buf[:runtime.Stack(buf, false)]
 				panic(&pathEnd{kind: endInternal, msg: fmt.Sprintf("executor runtime error in %s: %v\n%s", fr.fn, msg, buf)})
 			}
 		case string:
-			buf := make([]byte, 4096)
+			buf := make([]byte, 1500)
 			buf = buf[:runtime.Stack(buf, false)]
 			panic(&pathEnd{kind: endInternal, msg: fmt.Sprintf("executor error in %s: %s\n%s", fr.fn, p, buf)})
 		default:
